@@ -19,6 +19,7 @@ import bounded.text_roundtrip  # noqa: E402
 import bounded.ode  # noqa: E402
 import bounded.fom  # noqa: E402
 import contracts.ode  # noqa: E402
+import contracts.tsp_instance  # noqa: E402
 import contracts.bp_instance  # noqa: E402
 import contracts.order1d  # noqa: E402
 import contracts.tsplib  # noqa: E402
@@ -277,8 +278,15 @@ PLANS["C06"] = Plan(
 
 PLANS["C05"] = Plan(
     "C05", "proof",
-    functions=[TL + ":tour_length"],
-    explanation="tour_length equals the cyclic edge sum for every matrix/permutation/dtype; no int64 overflow",
+    functions=[TL + ":tour_length", "moptipyapps.tsp.instance:Instance.__new__",
+               "moptipyapps.tsp.instance:Instance.__new__#copy-check"],
+    explanation="tour_length equals the cyclic edge sum for every matrix/permutation/dtype, no int64 overflow; block contracts "
+                "on tsp.Instance.__new__: upper bound = sum of row maxima, lower bound = sum of row minima (off-diagonal), "
+                "symmetry flag true iff the matrix is symmetric, zero diagonal and a positive entry per row enforced, stored "
+                "matrix equals the given one entry by entry (copy-check loop)",
+    assumptions=["'every tour length lies within [lower, upper]' additionally needs the permutation-sum lemma A3 "
+                 "(design_round/A3.lean, Lean-checked in the design round) - not re-checked by this command",
+                 "E1: int_range_to_dtype(-limit, limit) returns a signed type containing the range"],
 )
 
 
